@@ -17,6 +17,27 @@ def key_classify(t):
     return ("classify", min(n, 9), h[:2], h[-2:], t[-1])
 
 
+def audit_shared_state():
+    """C14: source audit of /repo/src — no shared mutable state outside the guarded hooks"""
+    import os, re
+    pat = re.compile(r"static\s+mut\b|thread_local!|\bCell<|\bRefCell<|\bMutex<|\bRwLock<|\bAtomic[A-Z]\w*|lazy_static|OnceCell|OnceLock|\bunsafe\b\s*(\{|fn|impl)")
+    bad = []
+    for root, _, files in os.walk("/repo/src"):
+        for fn in files:
+            if not fn.endswith(".rs") or fn == "verif_hooks.rs":
+                continue
+            path = os.path.join(root, fn)
+            if "/tests/" in path:
+                continue
+            for i, line in enumerate(open(path, errors="replace")):
+                code = line.split("//")[0]
+                if "deny(unsafe_code)" in code:
+                    continue
+                if pat.search(code):
+                    bad.append("source audit: %s:%d: %s" % (path, i + 1, code.strip()[:80]))
+    return bad
+
+
 def _arrow(t):
     try:
         return t.index("=>")
@@ -194,4 +215,15 @@ PROPS = {
         exhaustive_quick=True, exhaustive_thorough=True,
         trusted=["hand model of SvgBuilder::image tied by exact-string correspondence on dyadic inputs"],
         assumptions=["IEEE-754 rounding and Rust float formatting are not modelled: floats are exact dyadics; generated overrides are dyadics with <= 3 fractional bits"]),
+    "C14": dict(
+        module="FastQr.Props.C14", level="proof", partial=True,
+        key=lambda t: (t[0], tuple(x.split(":")[0] for x in t[2].split(";"))[:8], len(t[1]) % 5) if t[0] == "hist" and len(t) > 3 else tuple(t[:4]),
+        extra=audit_shared_state,
+        missing=["thread schedules: Lean has no model of Rust threads; covered by the source audit (no shared mutable state) and the threaded correspondence"],
+        rule="cases: histories of 2..11 setter / build / to_str / svg calls on one shared QRBuilder; every build is compared with a "
+             "fresh builder given the same final options, renders are repeated and the QR code digested before/after; 1, 2, 4, 16 "
+             "threads (thorough 1..16 x 8) building interleaved shares of 50 (250) different inputs three times, each result "
+             "compared with the single-threaded one. distinct = (op-kind sequence, payload length class) / (threads, seed).",
+        trusted=["hand model of QRBuilder tied by digest correspondence", "source audit regexp for shared mutable state"],
+        assumptions=["rustc's aliasing rules: &self methods over plain data cannot race"]),
 }
